@@ -8,35 +8,34 @@ FILES = ["litedram/core/crossbar.py", "litedram/core/bankmachine.py", "litedram/
 LEVEL = "model_checking"
 TECHNIQUE = ("bounded model checking (z3 QF_BV) of the elaborated real crossbar+controller with an ordinal-matching monitor "
              "(symbolic marked port/ordinal), DFI bank-state reference, data-path routing check; replay on migen.sim")
-EXPLANATION = ("A symbolic marked command (port PSEL, ordinal NSEL -- solver variables) is followed from its acceptance at the "
-               "native port to the DFI: the K-th CAS of its bank (K = number of requests accepted earlier for that bank from all "
-               "ports) must carry its direction and column while the row open in that bank (reconstructed from DFI ACT/PRE only) "
-               "is its row; its data strobe must be the J-th strobe of that direction on its port and fall exactly "
-               "write/read-latency cycles after the CAS so that the DFI data phases carry this command's data; in strobe cycles the "
-               "DFI write data/mask equal the strobed port's data/~we and read data is passed through; no bank gets more CAS than "
-               "requests, no port more strobes than commands.  Together with a DRAM that obeys its command semantics (C02/C19) "
+EXPLANATION = ("A marked command (symbolic port PSEL, marked at an acceptance the solver chooses) is followed from the native port to "
+               "the DFI by queue position: the CAS of its bank that finds zero older outstanding requests must carry its direction "
+               "and column while the row open in that bank (reconstructed from DFI ACT/PRE only) is its row; the strobe of its "
+               "direction on its port that finds zero older outstanding commands must fall exactly write/read-latency cycles "
+               "after that CAS so that the DFI data phases carry this command's data; in strobe cycles the DFI write data/mask equal "
+               "the strobed port's data/~we and read data is passed through; no CAS without outstanding request, no strobe without "
+               "outstanding command.  Together with a DRAM that obeys its command semantics (C02/C19) "
                "this implies read-your-writes per byte, per-port order and cross-port order by acceptance.")
 
 
-def _extra(core, top, mon, kw, cw=6):
+def _extra(core, top, mon, kw):
     ps, gs = core.phy_settings, core.geom_settings
     align = core.controller.interface.address_align
-    om = monitors.OrdinalMonitor(core.ports, core.dfi, mon, gs.colbits, gs.bankbits, align,
-                                 write_latency=ps.write_latency, read_latency=ps.read_latency, cw=cw,
-                                 bank_byte_alignment=getattr(core.ctrl_settings, "bank_byte_alignment", 0))
+    om = monitors.TrackMonitor(core.ports, core.dfi, mon, gs.colbits, gs.bankbits, align,
+                               write_latency=ps.write_latency, read_latency=ps.read_latency,
+                               bank_byte_alignment=getattr(core.ctrl_settings, "bank_byte_alignment", 0))
     top.submodules.om = om
     kw["consts"]["PSEL"] = om.psel
-    kw["consts"]["NSEL"] = om.nsel
+    kw["inputs"]["mark"] = om.mark
     kw["bads"] = dict(om.bads)
     for k in ["act_to_open_bank", "cas_to_closed_bank"]:
         kw["bads"][k] = mon.bads[k]
-    kw["assumes"]["counters_not_saturated"] = om.no_overflow
     if len(core.ports) > 1:
         psel_ok = Signal()
         top.comb += psel_ok.eq(om.psel < len(core.ports))
         kw["assumes"]["psel_in_range"] = psel_ok
-    kw["covers"]["marked_write_strobed(ordinal>=2)"] = om.cov_marked_write_done
-    kw["covers"]["marked_read_returned(ordinal>=2)"] = om.cov_marked_read_done
+    kw["covers"]["marked_write_strobed"] = om.cov_marked_write_done
+    kw["covers"]["marked_read_returned_queued_behind_two"] = om.cov_marked_queued_behind_two
     c2 = Signal()
     top.comb += c2.eq(om.cov_marked_read_done & mon.seen["ref"] & mon.seen["wr"])
     kw["covers"]["marked_read_after_refresh_and_write"] = c2
@@ -61,7 +60,6 @@ def run(ctx):
     ctx.assume("master contract: a command is held (valid, we, addr stable) until accepted; write data is whatever is on "
                "wdata in the strobe cycle (offered no later than the command and held); rdata.ready is ignored by the core")
     ctx.assume("DRAM obeys its command semantics at the DFI (the reference DRAM of C19); refresh timer phase symbolic")
-    ctx.assume("ordinals below 63 per port/bank (6-bit monitor counters; assumption 'counters_not_saturated')")
     ctx.assume("reduced geometry (2-4 banks, 11 row bits, 4 column bits), 1-3 ports, single rank")
     for n, (c, kq, kt, tiers) in CONFIGS.items():
         if ctx.only and not ctx.only.search(n):
